@@ -268,6 +268,11 @@ func (t *template) Fill(vars any) Template {
 
 // Assign sets a single variable.
 func (t *template) Assign(key string, value any) Template {
+	// The loaded file's own front-matter is authoritative (rendering re-applies it over all
+	// assigned data), so Get and templates derived from this one must not see another value.
+	if _, inFrontMatter := t.frontMatter[key]; inFrontMatter {
+		return t
+	}
 	t.stack.Set(key, value)
 	return t
 }
@@ -301,7 +306,7 @@ func (t *template) Load(filename string) Template {
 	}
 
 	for k, v := range tpl.frontMatter {
-		tpl.Assign(k, v)
+		tpl.stack.Set(k, v)
 	}
 
 	return tpl
